@@ -400,7 +400,10 @@ def w_reformat(args):
             # function name stays glued to its bracket and nothing follows the closing bracket
             variants = [re.sub(r"^([\w.\s]+?)\s*\(", lambda m: re.sub(r"\s", "", m.group(1)) + "(", v.strip()) for v in variants]
             variants = [v for v in dict.fromkeys(variants) if v != code and _same_ast(v, code) and v.endswith(")")]
-        for v in variants:
+        labelled = [(v, None) for v in variants]
+        if brace or (isinstance(ast.parse(code, mode="eval").body, ast.Call) and code.endswith(")")):
+            labelled += [(v, lab) for v, lab in edge_whitespace_variants(code, brace) if _same_ast(v, code)]
+        for v, edge in labelled:
             fv = "{" + v + "}" if brace else v
             if ref[0] != "ok":
                 acc.case((formula, fv), False)
@@ -413,10 +416,32 @@ def w_reformat(args):
                 ok = bool(Formula(formula, _parser=parser) == Formula(fv, _parser=parser))
             if not ok:
                 kind = "factors-differ" if ref[0] == "ok" and got[0] == "ok" else f"{ref[0]}-vs-{got[0]}:{got[1] if got[0] != 'ok' else ref[1]}"
-                cause = "newline" if "\n" in fv else ("string-literal" if any(q in fv for q in "\"'") else "other")
+                cause = f"edge-whitespace:{edge}" if edge else ("newline" if "\n" in fv else ("string-literal" if any(q in fv for q in "\"'") else "other"))
                 w = {"fragment": formula, "respelled": fv, "observed": [ref, got, both], "code": REFORMAT_REPRO.format(a=formula, b=fv)}
                 acc.fail("C15.python.formatting-insensitive", f"{cause}/{kind}", w, f"{formula!r} and {fv!r} have the same Python AST but give {ref} vs {got} (sum: {both})")
     return ("python-reformatting", acc.result())
+
+
+EDGE_LEADS = ("", " ", "\t", "\n", "\r\n", "\n    ", "\n\t", " \t ")
+EDGE_TRAILS = ("", " ", "\t", "\n", "\r\n", "\n  ", " \t ")
+
+
+def edge_whitespace_variants(code, brace):
+    """Whitespace other than a single blank immediately inside the quoting brackets of a
+    fragment: `{<ws>code<ws>}` and `name(<ws>args<ws>)`. -> (variant text, label)"""
+
+    def label(ws):
+        return "blank" if ws.strip(" ") == "" else ("crlf" if "\r" in ws else ("newline+indent" if ws.startswith("\n") and len(ws) > 1 else ("newline" if "\n" in ws else "tab")))
+
+    combos = [(l, "") for l in EDGE_LEADS[1:]] + [("", t) for t in EDGE_TRAILS[1:]] + [("\n    ", "\n"), ("\t", "\t"), ("\r\n", "\r\n"), (" ", " ")]
+    for lead, trail in combos:
+        if brace:
+            yield lead + code + trail, "+".join(sorted({label(w) for w in (lead, trail) if w}))
+        else:
+            i, j = code.index("("), len(code) - 1
+            if code[j] != ")" or not code[i + 1 : j].strip():
+                return
+            yield code[: i + 1] + lead + code[i + 1 : j] + trail + ")", "+".join(sorted({label(w) for w in (lead, trail) if w}))
 
 
 def _same_ast(a, b):
@@ -742,7 +767,7 @@ def run_bounded(ctx):
             exhaustive=False,
             bound=f"{len(name_pool(th, seed))} names",
         ),
-        "python-reformatting": ctx.bounded("python-reformatting", rule="57 call/brace fragments x respellings with identical AST (token spacing, tabs, quote style, redundant parentheses, trailing comma, newline inside brackets): equal factors, equal formulas, one term when summed", exhaustive=False, bound="see rule"),
+        "python-reformatting": ctx.bounded("python-reformatting", rule="57 call/brace fragments x respellings with identical AST (token spacing, tabs, quote style, redundant parentheses, trailing comma, newline inside brackets; blank / tab / LF / CRLF / LF+indent immediately inside the quoting brace or call bracket, leading and trailing): equal factors, equal formulas, one term when summed", exhaustive=False, bound="see rule"),
         "python-verbatim": ctx.bounded("python-verbatim", rule="valid Python fragments containing operator characters, brackets and quotes (inside string literals and as Python syntax): one term, one python factor with the fragment's AST", exhaustive=False, bound="~230 fragments"),
         "string-tokens": ctx.bounded("string-tokens", rule="string literals in both quote styles holding brackets, operators, the other quote, backticks: one verbatim value token, in 4 positions", exhaustive=False, bound="26 payloads"),
         "token-spans": ctx.bounded(
